@@ -18,7 +18,8 @@ EXPLAIN = "explain"
 RULE = ("histories of 4-24 events over 2-3 real BcastClientSide backends sharing one in-process server: get, get_many, exists, set (plain / only-if-absent / "
         "only-if-present, with and without TTL), set_many, incr (with / without TTL), delete, delete_many, delete_match, expire, clear issued by any client; "
         "virtual clock advances of 0.125-12 s (server-side expiry emits invalidations; a dropped listener reconnects after 10 s); drops of one client's "
-        "subscription connection at any position; after every event the server expires what is due and every pending invalidation is delivered and "
+        "subscription connection at any position (a quarter of the histories: a drop followed by that client's reads interleaved with the others' writes "
+        "inside the 10 s before it re-subscribes); after every event the server expires what is due and every pending invalidation is delivered and "
         "processed (quiescent point), then the server keyspace, every client's local copy (values, 'absent' markers, local deadlines), live "
         "recently-updated marks and started flags are dumped. non-trivial: some client answered a read from its local copy after another client had "
         "modified or the server had expired that key earlier in the history")
@@ -66,9 +67,30 @@ def _rand_case(rng):
     return {"clients": n, "events": evs}
 
 
+def _outage_case(rng):
+    """one client loses its subscription connection and keeps reading (get / get_many / exists) the keys the other clients keep
+    changing, all inside the 10 s before it re-subscribes; then the reconnect, then more reads"""
+    n = rng.choice([2, 2, 3])
+    c = rng.randrange(n)
+    evs = [["cmd", rng.randrange(n), _rand_cmd(rng)] for _ in range(rng.randint(0, 5))] + [["drop", c]]
+    for _ in range(rng.randint(4, 12)):
+        r = rng.random()
+        k = rng.choice(["a", "b", "ab", "n"])
+        if r < 0.45: evs.append(["cmd", c, rng.choice([["get", k], ["exists", k], ["exists", k], ["get_many", [k, rng.choice(U)]]])])
+        elif r < 0.85:
+            o = rng.choice([i for i in range(n) if i != c])
+            evs.append(["cmd", o, rng.choice([["delete", k], ["delete", k], ["set", k, enc(rng.choice(VALUES)), rng.choice([0, 0, 1.0]), None],
+                                              ["incr", "n", 1, 0], ["delete_match", "*"]])])
+        else: evs.append(["tick", rng.choice([1, 2, 4])])
+    if rng.random() < 0.5:
+        evs.append(["tick", 96])
+        evs += [["cmd", c, rng.choice([["get", k], ["exists", k]])] for k in rng.sample(U, 2)]
+    return {"clients": n, "events": evs}
+
+
 def gen_cases(rng, tier):
     n = 400 if tier == "quick" else 5000
-    return [_rand_case(rng) for _ in range(n)]
+    return [_rand_case(rng) for _ in range(n - n // 4)] + [_outage_case(rng) for _ in range(n // 4)]
 
 
 BASE_MS = int(vclock.BASE * 1000)
